@@ -1,30 +1,218 @@
 /-
-  C15 proofs over the REGENERATED ValidateTokenExchangeRequest / CreateTokenExchangeResponse (subject / actor
-  resolution and the storage policy enter as oracles the theorems quantify over).
+  C15 proofs over the REGENERATED token-exchange chain (Generated/TokenExchangeTE.lean, namespace GenTE):
+  getTokenIDAndClaims, GetTokenIDAndSubjectFromToken (incl. the role dispatch to the optional verifier storage),
+  CreateTokenExchangeRequest, ValidateTokenExchangeRequest, needsRefreshToken (type switch), createTokens and
+  CreateTokenExchangeResponse.  Libraries and the storage enter as function fields of `TEProvider` / `TEStore`;
+  every theorem quantifies over all of them (any decrypt result, any verifier answers, any storage policy).
 -/
 import OidcModel.Spec.C15
-import OidcModel.Generated.TokenExchange
+import OidcModel.Generated.TokenExchangeTE
 import OidcModel.Proofs.C05
 namespace C15
 open Go Gen Hand
 
-/-- the token endpoint lets a token exchange through only for a secret-authenticated client registered for
-    the grant, with supported declared types, a subject token that resolves, an actor token that resolves
-    whenever one is given, and the storage policy's consent -/
-theorem c15_validate_sound {now rq id sec p r c} (h : ValidateTokenExchangeRequest now rq id sec p = .ok (r, c)) :
-    p.store.AuthorizeClientIDSecret id sec = .ok () ∧ p.store.GetClientByClientID id = .ok c ∧
+/-! ## hand-readable specification of token resolution -/
+
+/-- the provider's OWN resolution of a presented token of the declared type: (id-or-token, subject, claims) -/
+def ownResolution (p : TEProvider) (tok typ : String) : Option (String × String × TEClaims) :=
+  if typ = Const.AccessTokenType then
+    match p.Crypto.Decrypt tok with
+    | .ok plain =>
+      if Go.len (TE.split plain ":") != 2 then none
+      else some (Go.index (TE.split plain ":") 0, Go.index (TE.split plain ":") 1, [])
+    | .error _ =>
+      match p.AccessTokenVerifier.verify tok with
+      | .ok c => some (c.JWTID, c.Subject, if c.set then c.Claims else [])
+      | .error _ => none
+  else if typ = Const.RefreshTokenType then
+    match p.Storage.TokenRequestByRefreshToken tok with
+    | .ok r => some (tok, r.subject, [])
+    | .error _ => none
+  else if typ = Const.IDTokenType then
+    match p.IDTokenHintVerifier.verify tok with
+    | .ok (.valid c) => some (tok, c.Subject, c.Claims)      -- an expired hint is NOT a live ID token
+    | _ => none
+  else none
+
+/-- the optional verifier storage's method FOR THE ROLE in which the token was presented -/
+def rolePolicy (s : TEStore) (isActor : Bool) : String → String → Go.R (String × String × TEClaims) :=
+  if isActor then s.VerifyExchangeActorToken else s.VerifyExchangeSubjectToken
+
+/-- own resolution first; only if that fails, and only if the storage implements the optional interface, the role's policy -/
+def resolve (p : TEProvider) (tok typ : String) (isActor : Bool) : String × String × TEClaims × Bool :=
+  match ownResolution p tok typ with
+  | some (i, s, c) => (i, s, c, true)
+  | none =>
+    if p.Storage.is_TokenExchangeTokensVerifierStorage then
+      match rolePolicy p.Storage isActor tok typ with
+      | .ok (i, s, c) => (i, s, c, true)
+      | .error _ => ("", "", [], false)
+    else ("", "", [], false)
+
+/-- closes the goals in which own resolution failed: both sides are the role's policy (or the refusal) -/
+local macro "te_tail" : tactic =>
+  `(tactic| (cases ‹Bool› <;> simp <;> split <;> (try simp_all) <;> (try (split <;> simp_all))))
+
+/-- the regenerated `GetTokenIDAndSubjectFromToken` IS that specification (all providers, storages, tokens, types, roles) -/
+theorem c15_resolution_spec (now : Int) (p : TEProvider) (tok typ : String) (isActor : Bool) :
+    GenTE.GetTokenIDAndSubjectFromToken now p tok typ isActor = resolve p tok typ isActor := by
+  unfold GenTE.GetTokenIDAndSubjectFromToken resolve ownResolution rolePolicy GenTE.getTokenIDAndClaims
+    Hand.teVerifyAccessToken Hand.teVerifyIDTokenHint
+  simp only [Go.nil, HasNil.nilv, Go.notNil, Nilable.isNil, TERefreshReq.GetSubject, beq_iff_eq]
+  by_cases h1 : typ = Const.AccessTokenType
+  · simp only [h1, if_true]
+    cases hd : p.Crypto.Decrypt tok with
+    | ok plain =>
+      simp only []
+      by_cases hl : (Go.len (TE.split plain ":") != 2) = true
+      · simp only [hl, if_true]
+        te_tail
+      · simp [hl]
+    | error e =>
+      simp only []
+      cases hv : p.AccessTokenVerifier.verify tok with
+      | ok c =>
+        simp only []
+        cases hs : c.set <;> simp
+      | error e2 =>
+        simp only []
+        te_tail
+  · by_cases h2 : typ = Const.RefreshTokenType
+    · have h1' : ¬ (Const.RefreshTokenType = Const.AccessTokenType) := by decide
+      subst h2
+      simp only [h1', if_false, if_true]
+      cases hr' : p.Storage.TokenRequestByRefreshToken tok <;> simp
+      te_tail
+    · by_cases h3 : typ = Const.IDTokenType
+      · have h1' : ¬ (Const.IDTokenType = Const.AccessTokenType) := by decide
+        have h2' : ¬ (Const.IDTokenType = Const.RefreshTokenType) := by decide
+        subst h3
+        simp only [h1', h2', if_false, if_true]
+        cases hh : p.IDTokenHintVerifier.verify tok with
+        | ok hint =>
+          cases hint with
+          | valid c => simp [TEHint.strict]
+          | expired c => simp only [TEHint.strict]; te_tail
+        | error e => simp only [TEHint.strict]; te_tail
+      · simp only [h1, h2, h3, if_false]
+        te_tail
+
+/-- ROLE DISPATCH: a subject token is only ever resolved through the provider's own resolution or the storage's SUBJECT
+    policy - replacing the actor policy by anything at all changes nothing - and an actor token only through the ACTOR policy;
+    for all providers, storages, oracle answers, tokens and declared types -/
+theorem c15_role_dispatch (now : Int) (p : TEProvider) (tok typ : String) (f : String → String → Go.R (String × String × TEClaims)) :
+    GenTE.GetTokenIDAndSubjectFromToken now { p with Storage := { p.Storage with VerifyExchangeActorToken := f } } tok typ false
+      = GenTE.GetTokenIDAndSubjectFromToken now p tok typ false ∧
+    GenTE.GetTokenIDAndSubjectFromToken now { p with Storage := { p.Storage with VerifyExchangeSubjectToken := f } } tok typ true
+      = GenTE.GetTokenIDAndSubjectFromToken now p tok typ true := by
+  simp only [c15_resolution_spec]
+  constructor <;> rfl
+
+/-- a token accepted in a role was resolved by the provider itself or accepted by THAT role's policy, with exactly the
+    identity that policy returned -/
+theorem c15_accepted_by_role_policy {now : Int} {p : TEProvider} {tok typ : String} {isActor : Bool} {i s : String} {c : TEClaims}
+    (h : GenTE.GetTokenIDAndSubjectFromToken now p tok typ isActor = (i, s, c, true)) :
+    ownResolution p tok typ = some (i, s, c) ∨
+    (ownResolution p tok typ = none ∧ p.Storage.is_TokenExchangeTokensVerifierStorage = true ∧
+      (if isActor then p.Storage.VerifyExchangeActorToken else p.Storage.VerifyExchangeSubjectToken) tok typ = .ok (i, s, c)) := by
+  rw [c15_resolution_spec] at h
+  unfold resolve rolePolicy at h
+  cases ho : ownResolution p tok typ with
+  | some r => obtain ⟨a, b, d⟩ := r; simp [ho] at h; left; simp [h]
+  | none =>
+    right
+    simp only [ho] at h
+    by_cases hv : p.Storage.is_TokenExchangeTokensVerifierStorage = true
+    · simp only [hv, if_true] at h
+      refine ⟨rfl, hv, ?_⟩
+      split at h
+      · rename_i i' s' c' heq; simp at h; obtain ⟨rfl, rfl, rfl⟩ := h; exact heq
+      · simp at h
+    · simp [hv] at h
+
+/-- the request the storage policy is asked about: the identities resolved FOR EACH ROLE, the requesting client, and the
+    request's own scopes, audience, resources and requested type -/
+def builtReq (now : Int) (rq : TEIn) (c : OPClient) (sid ssub : String) (scl : TEClaims) (aid asub : String) (acl : TEClaims) : TEReq :=
+  { exchangeSubjectTokenIDOrToken := sid, exchangeSubjectTokenType := rq.SubjectTokenType, exchangeSubject := ssub, exchangeSubjectTokenClaims := scl,
+    exchangeActorTokenIDOrToken := aid, exchangeActorTokenType := rq.ActorTokenType, exchangeActor := asub, exchangeActorTokenClaims := acl,
+    subject := ssub, resource := rq.Resource, audience := rq.Audience, scopes := rq.Scopes, requestedTokenType := rq.RequestedTokenType,
+    clientID := c.id, authTime := now }
+
+/-- what `CreateTokenExchangeRequest` establishes: exchange storage present, subject token resolved in the subject role, actor
+    token (iff given) resolved in the actor role, the storage policy consulted with exactly `builtReq` and its verdict and
+    rewriting propagated -/
+theorem c15_create_request_sound {now : Int} {rq : TEIn} {c : OPClient} {p : TEProvider} {r : TEReq}
+    (h : GenTE.CreateTokenExchangeRequest now rq c p = .ok r) :
+    p.Storage.is_TokenExchangeStorage = true ∧
+    ∃ sid ssub scl aid asub acl r1,
+      resolve p rq.SubjectToken rq.SubjectTokenType false = (sid, ssub, scl, true) ∧
+      (if rq.ActorToken = "" then (aid, asub, acl) = ("", "", [])
+       else resolve p rq.ActorToken rq.ActorTokenType true = (aid, asub, acl, true)) ∧
+      p.Storage.ValidateTokenExchangeRequest (builtReq now rq c sid ssub scl aid asub acl) = .ok r1 ∧
+      p.Storage.CreateTokenExchangeRequest r1 = .ok r := by
+  unfold GenTE.CreateTokenExchangeRequest at h
+  simp only [c15_resolution_spec, Go.nil, HasNil.nilv, OPClient.GetID] at h
+  by_cases hs : p.Storage.is_TokenExchangeStorage = true
+  · simp only [hs, Bool.not_true, Bool.false_eq_true, if_false] at h
+    refine ⟨hs, ?_⟩
+    rcases hres : resolve p rq.SubjectToken rq.SubjectTokenType false with ⟨sid, ssub, scl, ok⟩
+    simp only [hres] at h
+    cases ok with
+    | false => simp at h
+    | true =>
+      simp only [Bool.not_true, Bool.false_eq_true, if_false] at h
+      by_cases ha : rq.ActorToken = ""
+      · simp only [ha, bne_self_eq_false, Bool.false_eq_true, if_false] at h
+        cases hv : p.Storage.ValidateTokenExchangeRequest (builtReq now rq c sid ssub scl "" "" []) with
+        | error e => simp only [builtReq] at hv; simp [hv] at h
+        | ok r1 =>
+          simp only [builtReq] at hv
+          simp only [hv] at h
+          cases hc : p.Storage.CreateTokenExchangeRequest r1 with
+          | error e => simp [hc] at h
+          | ok r2 =>
+            simp [hc] at h; subst h
+            exact ⟨sid, ssub, scl, "", "", [], r1, rfl, by simp [ha], by simpa [builtReq] using hv, hc⟩
+      · have ha' : (rq.ActorToken != "") = true := by simpa using ha
+        simp only [ha', if_true] at h
+        rcases hact : resolve p rq.ActorToken rq.ActorTokenType true with ⟨aid, asub, acl, ok2⟩
+        simp only [hact] at h
+        cases ok2 with
+        | false => simp at h
+        | true =>
+          simp only [Bool.not_true, Bool.false_eq_true, if_false] at h
+          cases hv : p.Storage.ValidateTokenExchangeRequest (builtReq now rq c sid ssub scl aid asub acl) with
+          | error e => simp only [builtReq] at hv; simp [hv] at h
+          | ok r1 =>
+            simp only [builtReq] at hv
+            simp only [hv] at h
+            cases hc : p.Storage.CreateTokenExchangeRequest r1 with
+            | error e => simp [hc] at h
+            | ok r2 =>
+              simp [hc] at h; subst h
+              exact ⟨sid, ssub, scl, aid, asub, acl, r1, rfl, by simp [ha], by simpa [builtReq] using hv, hc⟩
+  · simp [hs] at h
+
+/-- the token endpoint (Provider router) lets a token exchange through only for a secret-authenticated client registered for
+    the grant, with supported declared types, and then only as `c15_create_request_sound` says.
+    PARTIAL with exactly one exclusion (finding F-C15b, witness below): for the declared type id_token "the provider's own
+    resolution" is `VerifyIDTokenHint`, and that verifier also accepts the provider's own JWT ACCESS tokens - so "resolved as an
+    id_token" does not establish "is an ID token" (nor, therefore, that a revoked access token is refused). For the declared types
+    access_token / refresh_token / jwt and for third-party tokens the statement is the full one. -/
+theorem c15_validate_sound_partial {now : Int} {rq : TEIn} {id sec : String} {p : TEProvider} {r : TEReq} {c : OPClient}
+    (h : GenTE.ValidateTokenExchangeRequest now rq id sec p = .ok (r, c)) :
+    p.base.store.AuthorizeClientIDSecret id sec = .ok () ∧ p.base.store.GetClientByClientID id = .ok c ∧
     Const.GrantTypeTokenExchange ∈ c.grants ∧
-    rq.SubjectTokenType.IsSupported = true ∧ (rq.ActorTokenType = "" ∨ rq.ActorTokenType.IsSupported = true) ∧
+    rq.SubjectToken ≠ "" ∧ rq.SubjectTokenType.IsSupported = true ∧ (rq.ActorTokenType = "" ∨ rq.ActorTokenType.IsSupported = true) ∧
     (rq.RequestedTokenType = "" ∨ rq.RequestedTokenType.IsSupported = true) ∧
-    (∃ s, rq.subjectResolves = some s ∧ r.subject = s.subject) ∧
-    (rq.ActorToken ≠ "" → ∃ a, rq.actorResolves = some a ∧ r.actor = a.subject) ∧ rq.storageAccepts = true := by
-  unfold ValidateTokenExchangeRequest at h
+    GenTE.CreateTokenExchangeRequest now rq c p = .ok r := by
+  unfold GenTE.ValidateTokenExchangeRequest Hand.teAuthorizeClient at h
   by_cases h1 : (rq.SubjectToken == "") = true
   · simp [h1] at h
   by_cases h2 : (rq.SubjectTokenType == "") = true
   · simp [h1, h2] at h
   simp only [h1, h2, Bool.false_eq_true, if_false] at h
-  cases hc : AuthorizeTokenExchangeClient now id sec p with
+  cases hc : AuthorizeTokenExchangeClient now id sec p.base with
   | error e => simp [hc] at h
   | ok c' =>
     simp only [hc] at h
@@ -37,59 +225,72 @@ theorem c15_validate_sound {now rq id sec p r c} (h : ValidateTokenExchangeReque
     by_cases h6 : (rq.ActorTokenType != "" && !rq.ActorTokenType.IsSupported) = true
     · simp [h3, h4, h5, h6] at h
     simp only [h3, h4, h5, h6, Bool.false_eq_true, if_false] at h
-    cases hr : Hand.CreateTokenExchangeRequest now rq c' p with
+    cases hr : GenTE.CreateTokenExchangeRequest now rq c' p with
     | error e => simp [hr] at h
     | ok r' =>
       simp only [hr] at h
       simp at h
       obtain ⟨rfl, rfl⟩ := h
       obtain ⟨a1, a2⟩ := C05.authorizeTokenExchangeClient_ok hc
-      unfold Hand.CreateTokenExchangeRequest at hr
-      cases hs : rq.subjectResolves with
-      | none => simp [hs] at hr
-      | some s =>
-        simp only [hs] at hr
-        refine ⟨a1, a2, C04.validateGrantType_iff.1 (by simpa using h3), by simpa using h5, ?_, ?_, ?_⟩
-        · by_cases ht : rq.ActorTokenType = ""
-          · left; exact ht
-          · right; simp [ht] at h6; exact h6
-        · by_cases ht : rq.RequestedTokenType = ""
-          · left; exact ht
-          · right; simp [ht] at h4; exact h4
-        · by_cases ha : (rq.ActorToken != "") = true
-          · simp only [ha, if_true] at hr
-            cases har : rq.actorResolves with
-            | none => simp [har] at hr
-            | some a =>
-              simp only [har] at hr
-              by_cases hv : rq.storageAccepts = true
-              · simp [hv] at hr
-                subst hr
-                exact ⟨⟨s, rfl, rfl⟩, fun _ => ⟨a, rfl, rfl⟩, hv⟩
-              · simp [hv] at hr
-          · simp only [ha, Bool.false_eq_true, if_false] at hr
-            by_cases hv : rq.storageAccepts = true
-            · simp [hv] at hr
-              subst hr
-              refine ⟨⟨s, rfl, rfl⟩, ?_, hv⟩
-              intro hne; simp at ha; exact absurd ha hne
-            · simp [hv] at hr
+      refine ⟨a1, a2, C04.validateGrantType_iff.1 (by simpa using h3), by simpa using h1, by simpa using h5, ?_, ?_, hr⟩
+      · by_cases ht : rq.ActorTokenType = ""
+        · left; exact ht
+        · right; simp [ht] at h6; exact h6
+      · by_cases ht : rq.RequestedTokenType = ""
+        · left; exact ht
+        · right; simp [ht] at h4; exact h4
 
-/-- the response declares exactly what it contains: the requested type is one the provider can issue, the
-    token member is never empty, a refresh token is contained iff it was declared -/
-theorem c15_response_declares_contents {now r c p resp} (h : CreateTokenExchangeResponse now r c p = .ok resp) :
+/-! ## the refresh decision and the response -/
+
+/-- REFRESH DECISION: for a token-exchange request a refresh token is created iff the requested type is the refresh type -
+    whatever the client's registration (grants, auth method, …) -/
+theorem c15_refresh_decision (now : Int) (r : TEReq) (c : OPClient) :
+    GenTE.needsRefreshToken now r.asTokenRequest c = (r.requestedTokenType == Const.RefreshTokenType) := by
+  have hA : "AuthRequest" ∉ GenTE.tokenExchangeRequest_satisfies := by decide
+  have hT : "TokenExchangeRequest" ∈ GenTE.tokenExchangeRequest_satisfies := by decide
+  simp [GenTE.needsRefreshToken, TEReq.asTokenRequest, hA, hT, TEAnyReq.GetRequestedTokenType]
+
+/-- the documented contract of `Storage.CreateAccessAndRefreshTokens`: on success it hands out a refresh token -/
+def StorageContract (s : TEStore) : Prop :=
+  ∀ r cur id rt exp, s.CreateAccessAndRefreshTokens r cur = .ok (id, rt, exp) → rt ≠ ""
+
+theorem mintAccess_ne_empty (tt : Nat) (id sub : String) : TE.mintAccess tt id sub ≠ "" := by
+  unfold TE.mintAccess
+  intro h
+  have := congrArg String.length h
+  split at this <;> simp at this <;> omega
+
+/-- the response declares exactly what it contains, for ALL client registrations and every storage honouring the contract:
+    the issued type is the (issuable) requested type, the token member is never empty, and a refresh token is contained
+    IFF `issued_token_type` is the refresh type -/
+theorem c15_response_declares_contents {now : Int} {r : TEReq} {c : OPClient} {p : TEProvider} {resp : ExchangeResp}
+    (hs : StorageContract p.Storage) (h : GenTE.CreateTokenExchangeResponse now r c p = .ok resp) :
     resp.IssuedTokenType = r.requestedTokenType ∧
     (r.requestedTokenType = Const.AccessTokenType ∨ r.requestedTokenType = Const.RefreshTokenType ∨ r.requestedTokenType = Const.IDTokenType) ∧
-    resp.AccessToken ≠ "" ∧ (resp.RefreshToken ≠ "" ↔ r.requestedTokenType = Const.RefreshTokenType) ∧ resp.Scopes = r.scopes := by
-  unfold CreateTokenExchangeResponse teCreateAccessToken teCreateIDToken at h
-  simp only [ExchangeReq.GetRequestedTokenType, ExchangeReq.GetScopes] at h
+    resp.AccessToken ≠ "" ∧ (resp.RefreshToken ≠ "" ↔ resp.IssuedTokenType = Const.RefreshTokenType) ∧ resp.Scopes = r.scopes := by
+  unfold GenTE.CreateTokenExchangeResponse Hand.texCreateAccessToken Hand.texCreateIDToken GenTE.createTokens at h
+  simp only [TEReq.GetRequestedTokenType, TEReq.GetScopes, c15_refresh_decision] at h
   by_cases h1 : (r.requestedTokenType == Const.AccessTokenType || r.requestedTokenType == Const.RefreshTokenType) = true
   · simp only [h1, if_true] at h
-    simp at h
-    subst h
-    simp only [Bool.or_eq_true, beq_iff_eq] at h1
-    refine ⟨rfl, by rcases h1 with h1 | h1 <;> simp [h1], by simp, ?_, rfl⟩
-    by_cases hr : r.requestedTokenType = Const.RefreshTokenType <;> simp [hr]
+    by_cases hr : r.requestedTokenType = Const.RefreshTokenType
+    · simp only [hr, beq_self_eq_true, if_true] at h
+      cases hc : p.Storage.CreateAccessAndRefreshTokens r.asTokenRequest "" with
+      | error e => simp [hc] at h
+      | ok v =>
+        obtain ⟨id, rt, exp⟩ := v
+        simp [hc] at h
+        subst h
+        exact ⟨hr.symm, Or.inr (Or.inl hr), mintAccess_ne_empty _ _ _, by simp [hs _ _ _ _ _ hc], rfl⟩
+    · have hr' : (r.requestedTokenType == Const.RefreshTokenType) = false := by simpa using hr
+      simp only [hr', Bool.false_eq_true, if_false] at h
+      cases hc : p.Storage.CreateAccessToken r.asTokenRequest with
+      | error e => simp [hc] at h
+      | ok v =>
+        obtain ⟨id, exp⟩ := v
+        simp [hc] at h
+        subst h
+        simp only [Bool.or_eq_true, beq_iff_eq] at h1
+        refine ⟨rfl, by rcases h1 with h1 | h1 <;> simp [h1], mintAccess_ne_empty _ _ _, by simp [hr], rfl⟩
   · simp only [h1, Bool.false_eq_true, if_false] at h
     by_cases h2 : (r.requestedTokenType == Const.IDTokenType) = true
     · simp only [h2, if_true] at h
@@ -101,13 +302,103 @@ theorem c15_response_declares_contents {now r c p resp} (h : CreateTokenExchange
     · simp [h2] at h
 
 /-- a requested type the provider cannot issue (jwt, anything else) is an error - never a success answer -/
-theorem c15_unissuable_type_is_error {now r c p}
+theorem c15_unissuable_type_is_error {now : Int} {r : TEReq} {c : OPClient} {p : TEProvider}
     (h : r.requestedTokenType ≠ Const.AccessTokenType ∧ r.requestedTokenType ≠ Const.RefreshTokenType ∧ r.requestedTokenType ≠ Const.IDTokenType) :
-    CreateTokenExchangeResponse now r c p = .error "ErrInvalidRequest" := by
-  unfold CreateTokenExchangeResponse
-  simp [ExchangeReq.GetRequestedTokenType, h.1, h.2.1, h.2.2]
+    GenTE.CreateTokenExchangeResponse now r c p = .error "ErrInvalidRequest" := by
+  unfold GenTE.CreateTokenExchangeResponse
+  simp [TEReq.GetRequestedTokenType, h.1, h.2.1, h.2.2]
 
-example : CreateTokenExchangeResponse 0 { requestedTokenType := Const.JWTTokenType } {} {} = .error "ErrInvalidRequest" :=
+/-! ## finding F-C15b: a JWT access token declared as id_token (type confusion) -/
+section confusion
+def wKey : JWK := { KeyID := "sig1", Use := "sig", kty := .rsa, keyNo := 0 }
+def wKS : KeySet := { kind := .published, keys := [wKey] }
+def wNow : Int := 2000000000 * Go.second
+/-- the claims of one of the provider's own JWT access tokens (`oidc.NewAccessTokenClaims`: a `client_id`, no `azp`) -/
+def wATClaims : Claims := { iss := "https://op.example", sub := "user1", aud := ["web"], clientID := "web", exp := 2000000300, iat := 1999999995 }
+def wH : JHeader := { Algorithm := "RS256", KeyID := "sig1" }
+def wTok : Token :=
+  let p : Payload := { bytes := 1, claims := some wATClaims }
+  { segs := 3, middle := some p, jws := some { Signatures := [{ Header := wH, signer := some 0, signedAlg := "RS256", signedBytes := 1, signedHdr := wH }], payload := p } }
+def wVerifier : Verifier := { Issuer := "https://op.example", KeySet := wKS }
+/-- a provider whose two verifiers are the REGENERATED `op.VerifyAccessToken` / `op.VerifyIDTokenHint` on the symbolic token "AT" -/
+def wProvider : TEProvider :=
+  { base := { store := { clients := [{ id := "web", secret := "s", grants := [Const.GrantTypeTokenExchange] }] } },
+    AccessTokenVerifier := { verify := fun t => if t == "AT" then
+      (match Gen.OPVerifyAccessToken wNow wTok wVerifier with | .ok c => .ok { set := true, JWTID := "at1", Subject := c.sub } | .error e => .error e) else .error "invalid" },
+    IDTokenHintVerifier := { verify := fun t => if t == "AT" then
+      (match Gen.VerifyIDTokenHint wNow wTok wVerifier with
+       | .ok (.valid c) => .ok (.valid { Subject := c.sub }) | .ok (.expired c _) => .ok (.expired { Subject := c.sub }) | .error e => .error e) else .error "invalid" } }
+
+/-- WITNESS (the full-strength reading "a success means the subject token is a live token OF THE DECLARED TYPE" is false of the
+    unchanged code): the token "AT" is an access token of this provider - the regenerated access-token verifier accepts it and it
+    carries no `azp` -, the regenerated id_token_hint verifier accepts it all the same, the exchange that DECLARES it an id_token
+    goes through for its subject, and the monitor refuses that success (whatever the storage knows about the access token's
+    revocation was never asked) -/
+theorem c15_declared_id_token_confusion_witness :
+    (match Gen.OPVerifyAccessToken wNow wTok wVerifier with | .ok c => c.azp == "" && c.clientID == "web" | .error _ => false) = true ∧
+    (match Gen.VerifyIDTokenHint wNow wTok wVerifier with | .ok (.valid c) => c.sub == "user1" | _ => false) = true ∧
+    (match GenTE.ValidateTokenExchangeRequest wNow { SubjectToken := "AT", SubjectTokenType := Const.IDTokenType, RequestedTokenType := Const.AccessTokenType }
+        "web" "s" wProvider with | .ok (r, c) => r.subject == "user1" && c.id == "web" | .error _ => false) = true ∧
+    judge { base := { issuer := "https://op.example", clients := wProvider.base.store.clients }, capTE := true } wNow { clientID := "web", secret := "s" }
+      { subjectType := tID, subjectLive := false, subjectSubject := "", requestedType := tAccess }
+      (some { issuedTokenType := tAccess, accessToken := "access", accessLive := true, subject := "user1", policyAsked := true, exchangeSubject := "user1" })
+      = some "subject-token-not-live" := by decide
+end confusion
+
+/-! ## non-vacuity: concrete providers / storages / registrations -/
+
+/-- a verifier storage whose two role policies differ: "tp-s" only as subject, "tp-a" only as actor, "tp-b" in both roles but
+    as DIFFERENT identities -/
+def exStore : TEStore :=
+  { is_TokenExchangeTokensVerifierStorage := true,
+    VerifyExchangeSubjectToken := fun t _ => if t == "tp-s" then .ok (t, "alice", []) else if t == "tp-b" then .ok (t, "bob-as-subject", []) else .error "unknown token",
+    VerifyExchangeActorToken := fun t _ => if t == "tp-a" then .ok (t, "svc", []) else if t == "tp-b" then .ok (t, "bob-as-actor", []) else .error "unknown token" }
+
+def exProvider : TEProvider :=
+  { base := { store := { clients := [{ id := "te-only", secret := "s", grants := [Const.GrantTypeTokenExchange] }] } }, Storage := exStore }
+
+-- accepted in the role the storage allows, refused in the other one
+example : GenTE.GetTokenIDAndSubjectFromToken 0 exProvider "tp-s" Const.JWTTokenType false = ("tp-s", "alice", [], true) := by decide
+example : GenTE.GetTokenIDAndSubjectFromToken 0 exProvider "tp-s" Const.JWTTokenType true = ("", "", [], false) := by decide
+example : GenTE.GetTokenIDAndSubjectFromToken 0 exProvider "tp-a" Const.JWTTokenType true = ("tp-a", "svc", [], true) := by decide
+example : GenTE.GetTokenIDAndSubjectFromToken 0 exProvider "tp-a" Const.JWTTokenType false = ("", "", [], false) := by decide
+-- the same token in both roles resolves to the identity of THAT role
+example : GenTE.GetTokenIDAndSubjectFromToken 0 exProvider "tp-b" Const.JWTTokenType false = ("tp-b", "bob-as-subject", [], true) := by decide
+example : GenTE.GetTokenIDAndSubjectFromToken 0 exProvider "tp-b" Const.JWTTokenType true = ("tp-b", "bob-as-actor", [], true) := by decide
+-- without the optional interface the policies are never consulted
+example : GenTE.GetTokenIDAndSubjectFromToken 0 { exProvider with Storage := { exStore with is_TokenExchangeTokensVerifierStorage := false } }
+    "tp-s" Const.JWTTokenType false = ("", "", [], false) := by decide
+-- an expired ID token is not accepted (and a valid one is)
+example : GenTE.GetTokenIDAndSubjectFromToken 0 { IDTokenHintVerifier := { verify := fun _ => .ok (.expired { Subject := "alice" }) } }
+    "idt" Const.IDTokenType false = ("", "", [], false) := by decide
+example : GenTE.GetTokenIDAndSubjectFromToken 0 { IDTokenHintVerifier := { verify := fun _ => .ok (.valid { Subject := "alice" }) } }
+    "idt" Const.IDTokenType false = ("idt", "alice", [], true) := by decide
+
+/-- end to end (Provider router): a client registered for token exchange but NOT for refresh_token exchanges a third-party
+    subject token and a third-party actor token; the request carries the identities of the respective roles -/
+example : (GenTE.ValidateTokenExchangeRequest 0
+      { SubjectToken := "tp-b", SubjectTokenType := Const.JWTTokenType, ActorToken := "tp-b", ActorTokenType := Const.JWTTokenType,
+        RequestedTokenType := Const.RefreshTokenType, Scopes := ["openid"] } "te-only" "s" exProvider).toOption.map
+        (fun rc => (rc.1.exchangeSubject, rc.1.exchangeActor, rc.1.subject, rc.1.scopes, rc.2.id))
+    = some ("bob-as-subject", "bob-as-actor", "bob-as-subject", ["openid"], "te-only") := by decide
+-- ... and is refused when the actor token is one the ACTOR policy does not accept
+example : (match GenTE.ValidateTokenExchangeRequest 0
+      { SubjectToken := "tp-s", SubjectTokenType := Const.JWTTokenType, ActorToken := "tp-s", ActorTokenType := Const.JWTTokenType } "te-only" "s" exProvider with
+      | .error e => e | .ok _ => "accepted") = "ErrInvalidRequest" := by decide
+
+/-- the client WITHOUT the refresh_token grant that asks for a refresh token gets one (and the response says so); asking for an
+    access token yields none -/
+example : (GenTE.CreateTokenExchangeResponse 0 { requestedTokenType := Const.RefreshTokenType, subject := "alice" }
+      { id := "te-only", grants := [Const.GrantTypeTokenExchange] } exProvider).toOption.map (fun r => (r.IssuedTokenType, r.RefreshToken, r.AccessToken))
+    = some (Const.RefreshTokenType, "rt1", "at(at1:alice)") := by decide
+example : (GenTE.CreateTokenExchangeResponse 0 { requestedTokenType := Const.AccessTokenType, subject := "alice" }
+      { id := "web", grants := [Const.GrantTypeTokenExchange, Const.GrantTypeRefreshToken] } exProvider).toOption.map (fun r => (r.IssuedTokenType, r.RefreshToken))
+    = some (Const.AccessTokenType, "") := by decide
+example : StorageContract exStore := by
+  intro r cur id rt exp h
+  simp [exStore] at h
+  simp [← h.2.1]
+example : GenTE.CreateTokenExchangeResponse 0 { requestedTokenType := Const.JWTTokenType } {} exProvider = .error "ErrInvalidRequest" :=
   c15_unissuable_type_is_error (by decide)
 
 end C15
